@@ -414,4 +414,238 @@ theorem disj_poll (qid : Int) (s s' : DL) (r : Except E MeltQ) (hwf : PendingWf 
         exact Bool.false_ne_true hn
 
 
+/-! ## Well-formedness is preserved by every sequential fault-free operation -/
+
+theorem DbInv.stepDL {Q : DB → Prop} (h : DbInv Q) {β : Type} (s : DL) (e : Eff β) (hs : Q s.1) : Q (stepDL s e).1.1 := by
+  unfold Mint.stepDL
+  cases hd : execDb s.1 e with
+  | some p => obtain ⟨db', r⟩ := p; exact h e _ _ r hd hs
+  | none =>
+    simp only []
+    cases execLn s.2 e with
+    | some p => exact hs
+    | none => exact hs
+
+theorem DbInv.runDL {Q : DB → Prop} (h : DbInv Q) {α : Type} (p : Prog α) (s : DL) (hs : Q s.1) : Q (runDL p s).1.1 := by
+  induction p generalizing s with
+  | ret a => exact hs
+  | eff e k ih => exact ih _ _ (h.stepDL s e hs)
+
+theorem DbInv.runM {Q : DB → Prop} (h : DbInv Q) {α : Type} (p : PM α) (s : DL) (hs : Q s.1) : Q (runM p s).1.1 :=
+  h.runDL p.run s hs
+
+/-- Everything except `disjoint` is maintained by every effect, hence by every program. -/
+theorem DbWf.of_run {α : Type} (p : PM α) (s : DL) (hw : DbWf s.1) (hd : Disj (runM p s).1.1) : DbWf (runM p s).1.1 :=
+  ⟨spent_nodup_db.runM p s hw.spentNodup, pending_nodup_db.runM p s hw.pendingNodup, hd,
+   pendingLow_db.runM p s hw.pendingLow, sigs_nodup_db.runM p s hw.sigsNodup⟩
+
+theorem wf_poll (qid : Int) (s : DL) (hw : DbWf s.1) : DbWf (runM (getMeltQuoteState qid) s).1.1 :=
+  DbWf.of_run _ s hw (disj_poll qid s _ _ hw.pendingWf rfl)
+
+theorem wf_pollAll (qs : List Nat) (s : DL) (hw : DbWf s.1) : DbWf (runM (pollAll qs) s).1.1 := by
+  induction qs generalizing s with
+  | nil => exact hw
+  | cons q rest ih =>
+    simp only [pollAll]
+    rw [runM_bind]
+    have h1 := wf_poll q s hw
+    generalize runM (getMeltQuoteState (q : Int)) s = x at h1
+    obtain ⟨s1, r1⟩ := x
+    cases r1 with
+    | error e => exact h1
+    | ok v => exact ih s1 h1
+
+theorem wf_checkstate (ys : List YRef) (s : DL) (hw : DbWf s.1) : DbWf (runM (proofsStateCheck ys) s).1.1 := by
+  rw [checkstate_runM]
+  have h1 := wf_pollAll (dedupNat ((s.1.pending.filter (fun r => yMatch ys r.y)).map (·.quote))).reverse s hw
+  generalize runM (pollAll _) s = x at h1
+  obtain ⟨s1, r1⟩ := x
+  cases r1 <;> exact h1
+
+theorem wf_swap (cx : Cx) (ps : List Proof) (outs : List BMsg) (v : Option E) (s : DL) (hw : DbWf s.1) :
+    DbWf (runM (swap cx ps outs v) s).1.1 :=
+  DbWf.of_run _ s hw (disj_swap cx ps outs v s _ _ hw.disjoint rfl)
+
+theorem wf_melt (cx : Cx) (qid : Int) (ps : List Proof) (s : DL) (hw : DbWf s.1) :
+    DbWf (runM (meltTokens cx qid ps) s).1.1 :=
+  DbWf.of_run _ s hw (disj_melt cx qid ps s _ _ hw.disjoint rfl)
+
+/-- Operations that write neither `proofs` nor `pending_proofs`. -/
+theorem wf_frame {α : Type} (p : PM α) (s : DL) (hw : DbWf s.1)
+    (hf : ∀ s' r, runM p s = (s', r) → s'.1.spent = s.1.spent ∧ s'.1.pending = s.1.pending) : DbWf (runM p s).1.1 := by
+  have := hf (runM p s).1 (runM p s).2 rfl
+  exact DbWf.of_run _ s hw (Disj.frame hw.disjoint this.1 this.2)
+
+theorem gmqs_frame (qid : Int) (s : DL) :
+    (gmqsSpec qid s).1.1.spent = s.1.spent ∧ (gmqsSpec qid s).1.1.pending = s.1.pending ∧ (gmqsSpec qid s).1.1.sigs = s.1.sigs := by
+  unfold gmqsSpec
+  repeat' split
+  all_goals exact ⟨rfl, rfl, rfl⟩
+
+theorem wf_quoteState (qid : Int) (s : DL) (hw : DbWf s.1) : DbWf (runM (getMintQuoteState qid) s).1.1 := by
+  apply wf_frame _ s hw
+  intro s' r h
+  rw [getMintQuoteState_runM] at h
+  have := gmqs_frame qid s
+  rw [h] at this
+  exact ⟨this.1, this.2.1⟩
+
+theorem mintTokens_frame (cx : Cx) (qid : Int) (outs : List BMsg) (sig : QSig) (s s' : DL) (r : Except E (List BSig))
+    (h : runM (mintTokens cx qid outs sig) s = (s', r)) : s'.1.spent = s.1.spent ∧ s'.1.pending = s.1.pending := by
+  have hc := mintTokens_cases cx qid outs sig s s' r h
+  obtain ⟨g1, g2, _⟩ := gmqs_frame qid s
+  rcases hc with ⟨e, _, _, hs⟩ | ⟨q, _, ⟨_, _, hs⟩ | ⟨_, _, hs⟩ | ⟨_, _, hs⟩ | ⟨_, ⟨e, _, _, hs | hs⟩ | ⟨sigs, _, hok⟩⟩⟩
+  · rw [hs]; exact ⟨g1, g2⟩
+  · rw [hs]; exact ⟨g1, g2⟩
+  · rw [hs]; exact ⟨g1, g2⟩
+  · rw [hs]; exact ⟨g1, g2⟩
+  · rw [hs]; exact ⟨g1, g2⟩
+  · rw [hs]; exact ⟨g1, g2⟩
+  · rw [hok.db]; exact ⟨g1, g2⟩
+
+theorem wf_mint (cx : Cx) (qid : Int) (outs : List BMsg) (sig : QSig) (s : DL) (hw : DbWf s.1) :
+    DbWf (runM (mintTokens cx qid outs sig) s).1.1 :=
+  wf_frame _ s hw (fun s' r h => mintTokens_frame cx qid outs sig s s' r h)
+
+theorem wf_mintQuote (cx : Cx) (qid : Nat) (amount : UInt64) (u : Bool) (pk : PkReq) (s : DL) (hw : DbWf s.1) :
+    DbWf (runM (requestMintQuote cx qid amount u pk) s).1.1 := by
+  apply wf_frame _ s hw
+  intro s' r h
+  rcases requestMintQuote_cases cx qid amount u pk s s' r h with ⟨e, _, hs⟩ | ⟨q, _, hok⟩
+  · rw [hs]; exact ⟨rfl, rfl⟩
+  · rw [hok.db]; exact ⟨rfl, rfl⟩
+
+theorem wf_meltQuote (cx : Cx) (qid : Nat) (inv : InvReq) (m : Nat → UInt64) (u : Bool) (mpp : Option UInt64) (s : DL)
+    (hw : DbWf s.1) : DbWf (runM (requestMeltQuote cx qid inv m u mpp) s).1.1 := by
+  apply wf_frame _ s hw
+  intro s' r h
+  rcases requestMeltQuote_cases cx qid inv m u mpp s s' r h with ⟨e, _, hs⟩ | ⟨hh, q, _, _, hok⟩
+  · rw [hs]; exact ⟨rfl, rfl⟩
+  · rw [hok.db]; exact ⟨rfl, rfl⟩
+
+theorem wf_watcher (qid : Nat) (s : DL) (hw : DbWf s.1) : DbWf (runM (watcherNotified qid) s).1.1 := by
+  apply wf_frame _ s hw
+  intro s' r h
+  rcases (watcher_cases qid s s' r h).2 with ⟨_, hs⟩ | ⟨q, _, _, _, hs⟩
+  · rw [hs]; exact ⟨rfl, rfl⟩
+  · rw [hs]; exact ⟨rfl, rfl⟩
+
+theorem wf_restore (bs : List Nat) (s : DL) (hw : DbWf s.1) : DbWf (runM (restoreSigs bs) s).1.1 := by
+  rw [restore_runM]; exact hw
+
+theorem wf_balance (cx : Cx) (s : DL) (hw : DbWf s.1) : DbWf (runM (balanceOp cx) s).1.1 := by
+  apply wf_frame _ s hw
+  intro s' r h
+  rw [(balanceOp_cases cx s s' r h).1]; exact ⟨rfl, rfl⟩
+
+
+/-! ## The sequential machine keeps the tables well-formed -/
+
+theorem Sess.runPM_wf {α : Type} (s : Sess) (p : PM α) (script : List LnAns) (hf : NoFault s.w)
+    (hp : ∀ d : DL, d.1 = s.w.db → DbWf (runM p d).1.1) : DbWf (s.runPM p script).1.w.db ∧ NoFault (s.runPM p script).1.w := by
+  obtain ⟨ln', hrun, _, _, hnf, _⟩ := Sess.runPM_bridge s p script hf
+  have := hp (s.w.db, opLn s script) rfl
+  rw [hrun] at this
+  exact ⟨this, hnf⟩
+
+def Op.arms : Op → Bool
+  | .armFault _ => true
+  | _ => false
+
+theorem applyOp_wf (s : Sess) (op : Op) (ha : op.arms = false) (hf : NoFault s.w) (hw : DbWf s.w.db) :
+    DbWf (applyOp s op).1.w.db ∧ NoFault (applyOp s op).1.w := by
+  cases op <;> simp only [applyOp]
+  case extInvoice => exact ⟨hw, hf⟩
+  case settle => exact ⟨hw, hf⟩
+  case mintQuote amount unitSat pk lnFail =>
+    have := Sess.runPM_wf { s with w := { s.w with ln := { s.w.ln with failCreateInvoice := if lnFail then 1 else 0 } } }
+      (requestMintQuote (cxOf s) s.w.nextMintQ amount unitSat pk) [] hf
+      (fun d hd => wf_mintQuote _ _ _ _ _ d (hd ▸ hw))
+    split <;> exact this
+  case notify q =>
+    split
+    · exact Sess.runPM_wf s (watcherNotified q) [] hf (fun d hd => wf_watcher _ d (hd ▸ hw))
+    · exact ⟨hw, hf⟩
+  case quoteState q lnFail =>
+    exact Sess.runPM_wf { s with w := { s.w with ln := { s.w.ln with failInvoiceStatus := if lnFail then 1 else 0 } } }
+      (getMintQuoteState q) [] hf (fun d hd => wf_quoteState _ d (hd ▸ hw))
+  case mint q outs sig => exact Sess.runPM_wf s _ [] hf (fun d hd => wf_mint _ _ _ _ d (hd ▸ hw))
+  case swap ps outs v => exact Sess.runPM_wf s _ [] hf (fun d hd => wf_swap _ _ _ _ d (hd ▸ hw))
+  case meltQuote inv unitSat mpp =>
+    have := Sess.runPM_wf s (requestMeltQuote (cxOf s) s.w.nextMeltQ inv (invMsat s.w.ln) unitSat mpp) [] hf
+      (fun d hd => wf_meltQuote _ _ _ _ _ _ d (hd ▸ hw))
+    split <;> exact this
+  case melt q ps script lnFail =>
+    exact Sess.runPM_wf { s with w := { s.w with ln := { s.w.ln with failInvoiceStatus := if lnFail then 1 else 0 } } }
+      (meltTokens (cxOf s) q ps) script hf (fun d hd => wf_melt _ _ _ d (hd ▸ hw))
+  case meltState q script => exact Sess.runPM_wf s _ script hf (fun d hd => wf_poll _ d (hd ▸ hw))
+  case checkState ys script => exact Sess.runPM_wf s _ script hf (fun d hd => wf_checkstate _ d (hd ▸ hw))
+  case restore bs => exact Sess.runPM_wf s _ [] hf (fun d hd => wf_restore _ d (hd ▸ hw))
+  case balance => exact Sess.runPM_wf s _ [] hf (fun d hd => wf_balance _ d (hd ▸ hw))
+  case rotate fee =>
+    have hw0 : NoFault { s.w with trace := [], ln := { s.w.ln with calls := [] } } := hf
+    obtain ⟨h1, _, _, _, _, _, h7⟩ := run_eq_runDL (rotateKeyset s.w.mem fee) _ hw0
+    obtain ⟨_, ks, hks⟩ := rotate_cases s.w.mem fee (s.w.db, { s.w.ln with calls := [] })
+    refine ⟨?_, h7⟩
+    have hdb : ((rotateKeyset s.w.mem fee).run { s.w with trace := [], ln := { s.w.ln with calls := [] } }).1.db
+        = { s.w.db with keysets := ks } := by
+      have := congrArg Prod.fst h1
+      simp only [] at this
+      rw [this]; exact hks
+    show DbWf ((rotateKeyset s.w.mem fee).run _).1.db
+    rw [hdb]
+    exact ⟨hw.spentNodup, hw.pendingNodup, hw.disjoint, hw.pendingLow, hw.sigsNodup⟩
+  case restart rotate fee =>
+    split
+    · have hw0 : NoFault { s.w with mem := memOfDb s.w.db, trace := [], ln := { s.w.ln with calls := [] } } := hf
+      obtain ⟨h1, _, _, _, _, _, h7⟩ := run_eq_runDL (rotateKeyset (memOfDb s.w.db) fee) _ hw0
+      obtain ⟨_, ks, hks⟩ := rotate_cases (memOfDb s.w.db) fee (s.w.db, { s.w.ln with calls := [] })
+      refine ⟨?_, h7⟩
+      have hdb : ((rotateKeyset (memOfDb s.w.db) fee).run
+          { s.w with mem := memOfDb s.w.db, trace := [], ln := { s.w.ln with calls := [] } }).1.db
+          = { s.w.db with keysets := ks } := by
+        have := congrArg Prod.fst h1
+        simp only [] at this
+        rw [this]; exact hks
+      show DbWf ((rotateKeyset (memOfDb s.w.db) fee).run _).1.db
+      rw [hdb]
+      exact ⟨hw.spentNodup, hw.pendingNodup, hw.disjoint, hw.pendingLow, hw.sigsNodup⟩
+    · exact ⟨hw, hf⟩
+  case armFault => simp [Op.arms] at ha
+  case disarm => exact ⟨hw, rfl⟩
+
+/-- States reachable by sequential histories that never arm a storage fault. -/
+def Reach (s : Sess) : Prop :=
+  ∃ (fee : UInt64) (feePct : Bool) (cfg : Cfg) (ops : List Op), (∀ op ∈ ops, op.arms = false) ∧
+    s = runOps (initSess fee feePct cfg) ops
+
+theorem runOps_wf (s : Sess) (ops : List Op) (ha : ∀ op ∈ ops, op.arms = false) (hf : NoFault s.w) (hw : DbWf s.w.db) :
+    DbWf (runOps s ops).w.db ∧ NoFault (runOps s ops).w := by
+  induction ops generalizing s with
+  | nil => exact ⟨hw, hf⟩
+  | cons op rest ih =>
+    obtain ⟨h1, h2⟩ := applyOp_wf s op (ha op (List.mem_cons_self ..)) hf hw
+    exact ih _ (fun o ho => ha o (List.mem_cons_of_mem _ ho)) h2 h1
+
+theorem Reach.wf {s : Sess} (h : Reach s) : DbWf s.w.db ∧ NoFault s.w := by
+  obtain ⟨fee, feePct, cfg, ops, ha, rfl⟩ := h
+  apply runOps_wf _ _ ha (show NoFault (initSess fee feePct cfg).w from rfl)
+  exact ⟨by simp [initSess, ysOf], by simp [initSess, ysOf], by intro r hr; simp [initSess] at hr,
+         by intro r hr; simp [initSess] at hr, by simp [initSess]⟩
+
+theorem Reach.step {s : Sess} (h : Reach s) (op : Op) (ha : op.arms = false) : Reach (applyOp s op).1 := by
+  obtain ⟨fee, feePct, cfg, ops, hops, rfl⟩ := h
+  refine ⟨fee, feePct, cfg, ops ++ [op], ?_, ?_⟩
+  · intro o ho
+    rcases List.mem_append.1 ho with ho | ho
+    · exact hops o ho
+    · simp at ho; subst ho; exact ha
+  · have : ∀ (s0 : Sess) (l : List Op), runOps s0 (l ++ [op]) = (applyOp (runOps s0 l) op).1 := by
+      intro s0 l
+      induction l generalizing s0 with
+      | nil => rfl
+      | cons o rest ih => exact ih _
+    exact (this _ _).symm
+
+
 end Gonuts.Model.Mint
